@@ -324,6 +324,10 @@ def validate(rc):
             sides = [bb["__A"], bb["__B"]]
             has_ev = any(tm.is_(x, "_c.get_evidence()") is not None for x in sides)
             has_pa = any(tm.is_(x, t2) is not None for x in sides for t2 in ("self.get_parents(_n)", "self.predecessors(_n)", "list(self.predecessors(_n))"))
+            if not has_ev and not has_pa and all(".state_names[" in norm(x) for x in sides):
+                rc.fail(f, t, "the parent's state names are compared with the child's as SETS: the same names in another order pass, although state number k then means different "
+                        "states in the two tables", construct="state names compared as sets")
+                continue
             k = "evidence == parents"
             if not (has_ev and has_pa):
                 rc.fail(f, t, "check_model must compare the CPD's evidence with the node's parents in the graph", construct="evidence/parents source")
